@@ -125,6 +125,17 @@ def programs():
         P.append(_prog("time-period-identifier-" + tpf, ident,
                        {"DS_1": (["Id_1:Time_Period:I", "Me_1:Integer:M"], [(v, i) for i, v in enumerate(idv)])},
                        ["Time_Period-identifier", "representation-" + tpf], tpf=tpf))
+        # several Time_Period components whose nulls do not coincide (every null pattern over 3 columns of 2 rows each)
+        pv = ["2020Q3", "2020M1", "2020"] if tpf != "sdmx_gregorian" else ["2020M12", "2020D001", "2020"]
+        rows, n = [], 0
+        for mask in range(8):
+            for shift in (0, 1):
+                cells = [None if mask >> k & 1 else pv[(k + shift) % 3] for k in range(3)]
+                rows.append((n, pv[n % 3]) + tuple(cells))
+                n += 1
+        P.append(_prog("time-period-several-columns-" + tpf, ident,
+                       {"DS_1": (["Id_1:Integer:I", "Id_2:Time_Period:I", "Me_1:Time_Period:M", "Me_2:Time_Period:M", "At_1:Time_Period:A"], rows)},
+                       ["Time_Period", "null", "several-time-period-columns", "representation-" + tpf], tpf=tpf))
         P.append(_prog("time-period-scalar-" + tpf, 'sc_r <- cast("%s", time_period); sc_m <- cast("2020M3", time_period); sc_a <- cast("2020", time_period);' % ("2020Q1" if tpf != "sdmx_gregorian" else "2020D032"),
                        {}, ["scalar", "Time_Period", "representation-" + tpf], tpf=tpf))
     P.append(_prog("time-interval-measure", ident,
